@@ -8,10 +8,16 @@
    Parser.ParseContext (pkg/sql/parser/parser.go): entry check, then the statement loop with a poll before each
    statement; parseStatement and parseExpression poll at their entry.  The oracle is indexed by the poll counter:
    [done k] = "the k-th poll of this call reports done".  The statement parser is given by its context-free
-   behaviour [ps] (as in Model/Loops.v) and the number of polls [np pos] it makes from cursor pos; under a
-   context it fails with a context error at the first of its polls that reports done (the contract that the
-   error-site table establishes: no poll result is discarded or re-wrapped by text on the way to the loop, see
-   Props/C11.v) and otherwise behaves as [ps]. *)
+   behaviour [ps] (as in Model/Loops.v) and the number of polls [np pos] it makes from cursor pos (the entry
+   polls of parseStatement / parseExpression and the polls of the token cursor, see below); under a context the
+   call ends with the context error when any of these polls reports done (an entry poll returns it, wrapped with
+   %w or kept as a cause all the way up - the error-site table establishes that no poll result is discarded or
+   re-wrapped by text, see Props/C11.v; a cursor poll records it, turns the cursor into end of input, and
+   ParseContext returns the recorded error both when the statement then fails and before it would return a
+   tree) and otherwise behaves as [ps].
+
+   Parser.advance under a context: every [interval] (= contextPollInterval = 64) cursor positions the context is
+   polled; once a poll reported done the cursor is cancelled for good and reads as end of input. *)
 From Coq Require Import List Arith Bool NArith.
 From GV Require Import Model.Loops.
 Import ListNotations.
@@ -139,6 +145,18 @@ Section Par.
     match r with POk ts => COk ts | PErr c => CErr c | PFuel => CFuel end.
 End Par.
 Arguments COk {tree}. Arguments CErr {tree}. Arguments CCtx {tree}. Arguments CFuel {tree}.
+
+Section Cur.
+  Variable interval : nat.
+  Variable done : nat -> bool.     (* a poll made when the cursor is at position p reports done *)
+  (* state: (cursor position, cancelled) *)
+  Definition adv (s : nat * bool) : nat * bool :=
+    let p := S (fst s) in
+    if snd s then (p, true)
+    else if (p mod interval =? 0) && done p then (p, true) else (p, false).
+  Fixpoint advn (n : nat) (s : nat * bool) : nat * bool :=
+    match n with O => s | S m => advn m (adv s) end.
+End Cur.
 
 (* ---- concrete instances for the correspondence cases ---- *)
 (* tokenizer: only the token count matters: an input with n tokens, one byte each *)
